@@ -25,6 +25,11 @@ SHAPES_NA3 = [("na", "cat", "cat"), ("na", "cat", "cat_date"), ("na", "text", "c
               ("na", "cat", "mr"), ("na", "mr", "cat"), ("na", "mr", "mr")]
 SHAPES_1D = [("cat",), ("mr",), ("cat_date",), ("datetime",), ("text",), ("numeric",),
              ("logical",), ("na",)]
+# weights incl. values that are not exactly representable: for checks whose oracle works from
+# respondents with a stated tolerance (relational checks compare two library runs that add the
+# same numbers in a different order and keep exactly representable weights)
+WEIGHTS_INEXACT = ("none", "int", "dyadic", "zeroheavy", "tenths")
+
 SHAPES_3D = [
     ("cat", "cat", "cat"), ("cat", "cat", "mr"), ("cat", "mr", "cat"), ("cat", "mr", "mr"),
     ("mr", "cat", "cat"), ("mr", "cat", "mr"), ("mr", "mr", "cat"), ("mr", "mr", "mr"),
@@ -37,7 +42,7 @@ SHAPES_3D = [
 
 @st.composite
 def scenario_st(draw, shapes, max_n=24,
-                weight_kinds=("none", "int", "dyadic", "zeroheavy", "tenths"),
+                weight_kinds=("none", "int", "dyadic", "zeroheavy"),
                 measure="maybe", numeric="some", max_valid=4, max_items=3, stats=None,
                 allow_order_key=True, min_valid=1, skew=True, min_n=0):
     if env.tier() == "thorough":
